@@ -296,6 +296,7 @@ class Exec(CallsMixin, Interp):
             elif isinstance(k, K.Map):
                 if isinstance(v, PyObj):
                     v = self.empty_of(k.val, v)
+                v = self.coerce_checked(v, k.val, 'dict store@%s: value not None' % getattr(node, 'lineno', '?'), node)
                 new = K.map_set(base, idx, v)
             elif isinstance(k, K.Seq):
                 i = self.as_int(idx)
@@ -774,7 +775,7 @@ class Exec(CallsMixin, Interp):
         self.p.assume(K.forall([i], z3.Implies(z3.And(0 <= i, i < n, pi), z3.And(
             0 <= z3.Select(inv, i), z3.Select(inv, i) < m, z3.Select(idx, z3.Select(inv, i)) == i)),
             patterns=[z3.Select(inv, i)] + src_pat))
-        self.p.filter_maps = getattr(self.p, 'filter_maps', []) + [(idx, inv)]
+        self.p.seq_pos[out.terms[1].get_id()] = ('filter', idx, inv)
         return out
 
     def e_SetComp(self, node):
